@@ -481,8 +481,8 @@ func (cs *Contracts) loadFile(path string) error {
 					cur.Uses = map[string]bool{}
 				}
 				for _, f := range strings.FieldsFunc(rest, func(r rune) bool { return r == ',' || r == ' ' }) {
-					if f != "entryclosure" && f != "blockframe" {
-						return fail(fmt.Errorf("uses: unknown fact %q (entryclosure, blockframe)", f))
+					if f != "entryclosure" && f != "blockframe" && f != "readsframe" {
+						return fail(fmt.Errorf("uses: unknown fact %q (entryclosure, blockframe, readsframe)", f))
 					}
 					cur.Uses[f] = true
 				}
